@@ -29,6 +29,8 @@ def verify(name, tier="quick", run_tests=True, keep=False, base="HEAD"):
     d = SEEDED / name
     meta = json.loads((d / "meta.json").read_text())
     pid = meta["property"]
+    if base == "HEAD" and meta.get("base"):
+        base = meta["base"]   # written against an older commit of /repo; later fix: commits conflict with the patch
     wt = Path(f"/tmp/swt-{name}-{os.getpid()}")
     res = {"tier": tier, "at": time.strftime("%Y-%m-%dT%H:%M:%SZ", time.gmtime())}
     try:
